@@ -84,7 +84,7 @@ func init() {
 				W:       weights(Weights{"commit": 20, "add": 18, "add-all": 6, "twins": 3, "case-twin-commit": 3, "junk": 0}),
 				Oracles: []HistOracle{orC02}}
 		})
-	checks["C07"] = histCheck("C07", []string{"C07.world_commit_succeeds_on_diff", "C07.world_commit_nothing_staged_refused", "C07.world_commit_needs_diff", "C07.world_commit_refused_unchanged", "C07.diff_fromTree", "C07.diff_fromTree_build", "C07.fromTree_nil_iff", "C07.fold_ok", "C06.getEntry_correct", "C07.diff_nil_iff", "C07.diff_exact", "C07.getNode_build", "C07.isNew_build", "C07.getNodeAux_build", "C02.commit_refuses_noop", "C02.commit_accepts_diff", "C07.status_staged_exact", "C07.status_clean_after_commit"}, histRule,
+	checks["C07"] = histCheck("C07", []string{"C07.world_first_commit_succeeds", "C07.world_commit_succeeds_on_diff", "C07.world_commit_nothing_staged_refused", "C07.world_commit_needs_diff", "C07.world_commit_refused_unchanged", "C07.diff_fromTree", "C07.diff_fromTree_build", "C07.fromTree_nil_iff", "C07.fold_ok", "C06.getEntry_correct", "C07.diff_nil_iff", "C07.diff_exact", "C07.getNode_build", "C07.isNew_build", "C07.getNodeAux_build", "C02.commit_refuses_noop", "C02.commit_accepts_diff", "C07.status_staged_exact", "C07.status_clean_after_commit"}, histRule,
 		func(ctx *Ctx) *HistCfg {
 			return &HistCfg{Prop: "C07", Cases: tierN(ctx, 200, 2000), MinSteps: 8, MaxSteps: 30,
 				W:       weights(Weights{"commit": 16, "status": 14, "add": 18, "rm": 6, "restore": 6, "fd-swap": 4, "junk": 0}),
